@@ -107,21 +107,24 @@ class TapeRecorder(object):
         """
         Discards currently active recording process
         """
-        if self._active_recording is not None:
+        recording = self._active_recording
+        if recording is not None:
             _logger.info(
-                u'Recording with id {} was discarded'.format(self._active_recording.id))
-            self.tape_cassette.abort_recording(self._active_recording)
+                u'Recording with id {} was discarded'.format(recording.id))
+            self.tape_cassette.abort_recording(recording)
             self._reset_active_recording()
 
     def force_sample_recording(self):
         """
         Make sure currently active recording will be sampled (unless explicitly discarded or set to ignore enforcement)
         """
-        if self._active_recording is not None:
-            if self._active_recording_parameters.ignore_enforced_sampling:
+        recording = self._active_recording
+        recording_parameters = self._active_recording_parameters
+        if recording is not None and recording_parameters is not None:
+            if recording_parameters.ignore_enforced_sampling:
                 return
             _logger.info(
-                u'Recording with id {} sampling is enforced'.format(self._active_recording.id))
+                u'Recording with id {} sampling is enforced'.format(recording.id))
             self._force_sample = True
 
     @property
@@ -180,9 +183,13 @@ class TapeRecorder(object):
         :param data: Data to record (it needs to be serializable)
         :type data: Any
         """
-        self._assert_recording()
-        _logger.debug(u'Recording data for recording id {} under key {}'.format(self._active_recording.id, key))
-        self._active_recording[key] = data
+        recording = self._active_recording
+        if recording is None:
+            # Recording was discarded in the meanwhile (by the intercepted function itself or by another thread),
+            # there is nothing to record into and the recorded operation must not be affected
+            return
+        _logger.debug(u'Recording data for recording id {} under key {}'.format(recording.id, key))
+        recording[key] = data
 
     def _assert_recording(self):
         """
@@ -858,7 +865,8 @@ class TapeRecorder(object):
                 self.discard_recording()
                 return result
 
-            if self._active_recording_parameters.copy_data_on_intercepion:
+            recording_parameters = self._active_recording_parameters
+            if recording_parameters is not None and recording_parameters.copy_data_on_intercepion:
                 try:
                     recorded_result = pickle_copy(recorded_result)
                 except Exception as ex:
